@@ -2,7 +2,14 @@
 import streams
 from checks._propcommon import op_results, standard_programs
 
-THEOREMS = ["LNN.C06_sweep_zero_fix", "LNN.C06_infer_again", "LNN.C06_grid", "LNN.C06_terminates"]
+THEOREMS = ["LNN.C06_sweep_zero_fix",
+            "LNN.C06_infer_again",
+            "LNN.C06_grid",
+            "LNN.C06_fixpoint",
+            "LNN.C06_fixpoint_grid",
+            "LNN.C06_terminates",
+            "LNN.C06_terminates_two_N",
+            "LNN.C06_terminates_exists"]
 MODULES = ["LnnVerif.Props.C06"]
 FACETS = {"bounds", "reported"}
 MAXS = 200
